@@ -114,12 +114,12 @@ def run_spec(spec, props=("C07", "C08")):
         for phase in ((0, 1, 2) if spec.get("edit") else (0,)):
             phase_tag = ""
             if phase == 1:
-                G.add_edge(*spec["edit"])
-                phase_tag = " [same graph object after adding edge %r in place]" % (tuple(spec["edit"]),)
-            if phase == 2:
                 e1 = next((a_, b_) for a_, b_ in G.edges() if {a_, b_} != set(spec["edit"]))
-                G.remove_edge(*e1)       # back to the original numbers of nodes and edges, different degrees
-                phase_tag = " [same graph object after adding edge %r and removing edge %r in place]" % (tuple(spec["edit"]), e1)
+                G.remove_edge(*e1); G.add_edge(*spec["edit"])       # same numbers of nodes and edges, different degrees
+                phase_tag = " [same graph object after replacing edge %r by %r in place]" % (e1, tuple(spec["edit"]))
+            if phase == 2:
+                G.add_edge(*e1)
+                phase_tag = " [same graph object after adding edge %r in place]" % (e1,)
             for rho in spec["rhos"]:
                 for (tau, gamma) in spec["rates"]:
                     for grid in spec["grids"]:
